@@ -399,6 +399,6 @@ SUBS = [
 
 MANIFEST = {
     "technique": "property-based testing with an independent reference emitter (differential against the UVL definition) + fault injection into valid documents; validity oracle = raw uvlparser with strict lexer/parser listeners",
-    "level_text": "Generated reference models are rendered by an independent emitter under random surface choices and must be read back as exactly that model; valid documents with one syntax-breaking edit must be rejected with an exception. Sampling only; conformance is to my transcription of the UVL definition.",
+    "level_text": "Generated reference models are rendered by an independent emitter under random surface choices and must be read back as exactly that model; valid documents with one syntax-breaking edit must be rejected with an exception. Sampling only; conformance is to my transcription of the UVL definition. Also: group bounds above the number of members, namespaces and attributes spelled like features, '.5' literals, 1 200-run atheris campaign. A sample of every sub-check additionally runs in a `python -OO` child with the root logger at DEBUG.",
     "level_note": "Trusted: vf/emit_uvl.py (the transcription of UVL syntax and group semantics), the raw uvlparser as validity filter, vf/logic.py.",
 }
